@@ -146,6 +146,27 @@ def worker_exec_order(inst, tier):
 
     nodes, cgr, g = cg.build(inst, node_cls=fixtures.OracleNode)
     obs = []
+    # horizon: the schedule has one partition per supervisor step that exists in *every* episode of the (possibly ragged) stack, and the supervisor's
+    # step p closes partition p in every episode
+    import numpy as onp
+    sup = g.supervisor.name
+    sseq = onp.atleast_2d(onp.asarray(cgr.vertices[sup].seq))
+    horizon = int((sseq >= 0).sum(axis=-1).min())
+    sl = g.timings.slots[g._supervisor_slot]
+    run_, seq_ = onp.atleast_2d(onp.asarray(sl.run)), onp.atleast_2d(onp.asarray(sl.seq))
+    bad = []
+    if run_.shape[-1] != horizon:
+        bad.append(f"schedule has {run_.shape[-1]} partitions; the shortest episode has {horizon} supervisor steps")
+    for e in range(run_.shape[0]):
+        for p_ in range(run_.shape[1]):
+            if not (bool(run_[e, p_]) and int(seq_[e, p_]) == p_):
+                bad.append(f"episode {e} partition {p_}: supervisor slot run={bool(run_[e, p_])} seq={int(seq_[e, p_])}")
+    o = Ob("instance: the schedule has one partition per supervisor step present in every episode; supervisor step p closes partition p in every episode",
+           "unsat" if not bad else "sat", 0, dict(inst=inst), detail=f"{run_.shape}; {bad[:3]}", key="horizon", queries=int(run_.size),
+           what=f"compiled schedule horizon / supervisor closing steps wrong: {bad[:2]}")
+    if bad:
+        o.replayed = True  # read off the real Graph's timings (no model in between)
+    obs.append(o)
     for eps in range(g.max_eps):
         gs0 = g.init(jax.random.PRNGKey(1), starting_eps=eps)
         calls = cg.UFCalls()
@@ -231,6 +252,8 @@ def run(rep):
     obs += pmap("props.c07", "worker_order", cg.instances(rep.tier, small=True)[:3], rep.tier)
     oinst = cg.instances(rep.tier, small=True)[:3] + [dict(kind="two", rate1=5, rate2=60, window12=2, window21=1, ts_max=0.45, mode=m) for m in ("generational", "topological")]
     oinst.append(dict(kind="three", rates=(10, 20, 15), windows=(2, 1, 2), ts_max=0.3, mode="mcs"))
+    oinst += [dict(kind="two", rate1=10, rate2=20, window12=2, window21=1, ragged=[0.5, 0.3], mode=m) for m in ("mcs", "generational", "topological")]
+    oinst.append(dict(kind="three", rates=(10, 20, 15), windows=(2, 1, 2), ragged=[0.3, 0.5, 0.4], mode="mcs"))
     oinst += [dict(kind="fanout", mode="mcs", ts_max=0.5, windows=[4, 1]), dict(kind="fanout", mode="generational", ts_max=0.5, windows=[2, 1], third=[5, 10])] + cg.random_instances(rep.tier, quick_n=3)
     rep.configs = list(rep.configs) + oinst
     obs += pmap("props.c07", "worker_exec_order", oinst, rep.tier)
